@@ -24,6 +24,8 @@ package eventstream
 
 import "sync"
 
+import "github.com/tochemey/goakt/v4/internal/verifhook"
+
 // Stream defines the event stream broker.
 type Stream interface {
 	// AddSubscriber adds a subscriber.
@@ -72,10 +74,12 @@ func (b *EventsStream) AddSubscriber() Subscriber {
 }
 
 func (b *EventsStream) RemoveSubscriber(sub Subscriber) {
+	verifhook.At("es.rm.topics", sub, 0, 0)
 	for _, topic := range sub.Topics() {
 		b.Unsubscribe(sub, topic)
 	}
 
+	verifhook.At("es.rm.delete", sub, 0, 0)
 	b.subsMu.Lock()
 	delete(b.subscribers, sub.ID())
 	b.subsMu.Unlock()
@@ -91,12 +95,15 @@ func (b *EventsStream) SubscribersCount(topic string) int {
 }
 
 func (b *EventsStream) Subscribe(sub Subscriber, topic string) {
+	verifhook.At("es.sub.active", sub, 0, 0)
 	if !sub.Active() {
 		return
 	}
 
+	verifhook.At("es.sub.self", sub, 0, 0)
 	sub.subscribe(topic)
 
+	verifhook.At("es.sub.topics", sub, 0, 0)
 	b.topicsMu.Lock()
 	subs, ok := b.topics[topic]
 	if !ok {
@@ -108,8 +115,10 @@ func (b *EventsStream) Subscribe(sub Subscriber, topic string) {
 }
 
 func (b *EventsStream) Unsubscribe(sub Subscriber, topic string) {
+	verifhook.At("es.unsub.self", sub, 0, 0)
 	sub.unsubscribe(topic)
 
+	verifhook.At("es.unsub.topics", sub, 0, 0)
 	b.topicsMu.Lock()
 	subs, ok := b.topics[topic]
 	if ok {
@@ -147,6 +156,7 @@ func (b *EventsStream) Close() {
 }
 
 func (b *EventsStream) publishToTopic(topic string, msg any) {
+	verifhook.At("es.pub.snap", b, 0, 0)
 	b.topicsMu.RLock()
 	subs := b.topics[topic]
 	if len(subs) == 0 {
@@ -161,6 +171,7 @@ func (b *EventsStream) publishToTopic(topic string, msg any) {
 
 	message := NewMessage(topic, msg)
 	for _, sub := range snapshot {
+		verifhook.At("es.pub.active", sub, 0, 0)
 		if sub.Active() {
 			sub.signal(message)
 		}
